@@ -101,6 +101,10 @@ func (e *testEnv) monitorStoreFault(sc scenario, plan map[string]string, dataFau
 		return false
 	}
 	input := map[string]interface{}{"scenario": sc.name, "faults": plan, "data_fault": dataFault, "response": real, "redis": e.cfg.Redis}
+	if v.Panicked {
+		// "… and request handling does not crash"
+		c.violation("C13", "request handling crashed on a session-store fault", map[string]interface{}{"scenario": sc.name, "faults": plan, "data_fault": dataFault, "redis": e.cfg.Redis, "panic": firstLines(e.lastPanic, 12)})
+	}
 	c.casen(fmt.Sprintf("c13|%v|%s|%v|%s", e.cfg.Redis, sc.name, plan, dataFault), sc.name+" "+fmt.Sprint(plan)+" "+dataFault+" => "+real)
 	// never forwarded as authenticated when the load that supplies the session failed
 	loadFault := faulted("load#1") || dataFault != "" || (sc.name == "refresh" && (faulted("load#2") || faulted("obtain#1")))
